@@ -207,6 +207,10 @@ MCInit ==
   \/ \E v \in { Simple, RV(FALSE, 1, TRUE, FALSE, <<>>, <<>>), RV(TRUE, 0, FALSE, FALSE, <<>>, <<>>) }, w \in FewV, third \in BOOLEAN :
        LET items == IF third THEN <<E2(v, v), E1(w)>> ELSE <<[k |-> "E", vs |-> <<v, w, v>>]>> IN
        InitWith([MkCase(Field(items, 1, DefC, DefP, <<>>, FALSE, <<>>), items, FALSE) EXCEPT !.dup = TRUE])
+  \* five and six alternatives in one entry
+  \/ \E v \in FewV, w \in FewV, six \in BOOLEAN, ps \in PipeStyles :
+       LET items == << [k |-> "E", vs |-> IF six THEN <<Simple, v, Simple, w, Simple, v>> ELSE <<v, Simple, w, Simple, Simple>>], E1(Simple) >> IN
+       InitWith(MkCase(Field(items, 1, DefC, ps, <<>>, FALSE, <<>>), items, FALSE))
   \/ RandInit
   \* larger cover
   \/ Big /\ \E v \in GoodV, w \in FewV, s \in 1..3, ps \in PipeStyles :
